@@ -171,6 +171,23 @@ def oracle(ctx, seeds=None):
             phys = np.array([L[0] * L[1], L[0] * L[1] ** 2 + L[2], L[0] * L[1] * tL, L[0] * L[1] * H])
             if np.any(np.abs(fLL - phys) > TOL * sc * 4):
                 res.fail('euler2d/%s:consistency' % name, "F(W,W)=%r != f(W)=%r" % (fLL, phys), dict(model='euler2d', flux=name, gamma=g, L=L, tL=tL, n=nrm))
+            # upwind: both states and the Roe average supersonic along the normal
+            if name == 'hlle':
+                cL = np.sqrt(g * L[2] / L[0]); cR = np.sqrt(g * R[2] / R[0])
+                HL = cL ** 2 / (g - 1) + .5 * (L[1] ** 2 + tL ** 2); HR = cR ** 2 / (g - 1) + .5 * (R[1] ** 2 + tR ** 2)
+                w = np.sqrt(R[0] / L[0]); unRoe = (L[1] + w * R[1]) / (1 + w); utRoe = (tL + w * tR) / (1 + w); hRoe = (HL + w * HR) / (1 + w)
+                cRoe = np.sqrt(max((hRoe - .5 * (unRoe ** 2 + utRoe ** 2)) * (g - 1), 0))
+                def phys2(W, t):
+                    Hh = g * W[2] / W[0] / (g - 1) + .5 * (W[1] ** 2 + t ** 2)
+                    return np.array([W[0] * W[1], W[0] * W[1] ** 2 + W[2], W[0] * W[1] * t, W[0] * W[1] * Hh])
+                if min(L[1] - cL, R[1] - cR, unRoe - cRoe) > 0:
+                    res.count('euler2d-upwind-right')
+                    if np.any(np.abs(fLR - phys2(L, tL)) > TOL * sc * 4):
+                        res.fail('euler2d/hlle:upwind', "supersonic along +n: F=%r != f(L)=%r (n=%r)" % (fLR, phys2(L, tL), nrm), dict(model='euler2d', flux=name, gamma=g, L=L, R=R, tL=tL, tR=tR, n=nrm))
+                if max(L[1] + cL, R[1] + cR, unRoe + cRoe) < 0:
+                    res.count('euler2d-upwind-left')
+                    if np.any(np.abs(fLR - phys2(R, tR)) > TOL * sc * 4):
+                        res.fail('euler2d/hlle:upwind', "supersonic along -n: F=%r != f(R)=%r (n=%r)" % (fLR, phys2(R, tR), nrm), dict(model='euler2d', flux=name, gamma=g, L=L, R=R, tL=tL, tR=tR, n=nrm))
             sig = np.array([-1, 1, -1, -1])
             if np.any(np.abs(fm - sig * fLR) > TOL * sc):
                 res.fail('euler2d/%s:mirror' % name, "F(mR,mL)=%r vs sigma*F(L,R)=%r" % (fm, sig * fLR), dict(model='euler2d', flux=name, gamma=g, L=L, R=R, tL=tL, tR=tR, n=nrm))
